@@ -68,7 +68,18 @@ def r12_1(ctx: Ctx) -> RuleResult:
                         return ["nonneg@" + n]
             return []
 
-        flow = must_flow(fn.node, refine_events=refine)
+        def expr_events(e: ast.expr, n=n) -> List[str]:
+            # an eager stdlib validator applied with `n` as its bound refuses a negative n
+            if isinstance(e, ast.Call) and callee_name(e) in EAGER_VALIDATORS:
+                if any(path_of(a) == n for a in e.args[1:]) or any(path_of(k.value) == n for k in e.keywords):
+                    return ["validated@" + n]
+            # delegation to a sibling that takes the count
+            if isinstance(e, ast.Call) and isinstance(e.func, ast.Attribute) and path_of(e.func.value) == "self":
+                if [path_of(a) for a in e.args] == [n] and e.func.attr in q.methods and _count_param(q.methods[e.func.attr]):
+                    return ["validated@" + n]
+            return []
+
+        flow = must_flow(fn.node, refine_events=refine, expr_events=expr_events)
         # raise under n < 0 must be a ValueError
         from sa.flow import parent_map
 
@@ -101,6 +112,16 @@ def r12_1(ctx: Ctx) -> RuleResult:
         else:
             rr.bad(fn, bad[0], f"`{name}` touches the shared iterator on a path on which a negative `{n}` has not "
                    "been refused", construct=f"{name}: self._it before the n < 0 check")
+        # a negative count must be refused on every path that returns normally
+        for kind, node, st in flow.exits:
+            if kind not in ("return", "fall"):
+                continue
+            if "nonneg@" + n in st or "validated@" + n in st:
+                continue
+            rr.bad(fn, node if isinstance(node, ast.stmt) else fn.node,
+                   f"`{name}` can return normally for a negative `{n}`: the count is neither tested nor handed "
+                   "to a validating constructor on that path", construct=f"{name}: negative {n} accepted")
+            break
         # the refusal is a ValueError
         for rs in [x for x in ast.walk(fn.node) if isinstance(x, ast.Raise)]:
             cls = ctx.escapes.exc_name(fn, rs.exc) if rs.exc is not None else None
